@@ -501,6 +501,11 @@ def run(ctx):
     from . import C09
 
     imported(ctx, C09.rule_P)
+    # the resampling step of both SMC samplers adds particles of the current swarm only (the burn-in sampler's first
+    # swarm holds placeholders): same rule object as C01.K3 / R1
+    from . import C01
+
+    imported(ctx, C01.rule_K3_R1)
 
 
 _PG = "phyclone/mcmc/particle_gibbs.py"
